@@ -89,6 +89,8 @@ def generate(rng, tier: str, index: int) -> dict:
     kind['extmsg'] = rng.chance(0.35)
     kind['group_updates'] = True
     if index % 3 == 2:
+        # the packer is also handed routes of a family the session did not negotiate (configured here, not offered by the peer)
+        kind['peer_drops'] = rng.choice([[], [], [], ['v4u'], ['v6u'], ['v4l', 'v4vpn']])
         return generate_direct(rng, tier, kind)
     mx = 65535 if kind['extmsg'] else 4096
     batches = []
